@@ -131,6 +131,10 @@ fn alphabet(l: &Layout, t: &str) -> Vec<u8> {
     a
 }
 
+fn has_bcd(l: &Layout, t: &str, depth: usize) -> bool {
+    depth < 4 && l.fields(t).iter().any(|f| f["enc"]["e"] == "Bcd" || f["enc"]["e"] == "Receipt" || (f["kind"] == "struct" && has_bcd(l, f["sub"].as_str().unwrap(), depth + 1)))
+}
+
 pub fn codec_sweep(args: &[String]) -> anyhow::Result<()> {
     let l = Layout::load(&args[0])?;
     let corpus_path = &args[1];
@@ -277,6 +281,24 @@ pub fn codec_sweep(args: &[String]) -> anyhow::Result<()> {
                     }
                 }
             }
+        }
+        "bcd" => {
+            // every type, well-formed bodies whose BCD numbers sit at the edges of their integer types
+            gen::BCD_EDGE.with(|e| e.set(true));
+            let mut rng = Rng::new(seed ^ 0xbcd);
+            let count: u64 = std::env::var("SWEEP_COUNT").ok().and_then(|s| s.parse().ok()).unwrap_or(20000);
+            let with_bcd: Vec<&String> = types.iter().filter(|t| has_bcd(&l, t, 0)).collect();
+            for k in 0..count {
+                let t = with_bcd[(k as usize) % with_bcd.len()];
+                let body = gen::gen_struct(&l, t, &mut rng, 0, true);
+                let bytes = gen::frame(&l, t, body);
+                sink.run(t, mode, &bytes, &json!({}));
+                if k % 5 == 0 && l.command(t).is_some() {
+                    let p = rng.pick(&parsers);
+                    sink.run(p, mode, &bytes, &json!({"enum": p}));
+                }
+            }
+            gen::BCD_EDGE.with(|e| e.set(false));
         }
         "mut" => {
             let mut rng = Rng::new(seed);
